@@ -541,6 +541,12 @@ class Glyph(BaseObject):
         self.disableNotifications()
         contours = list(self._shallowLoadedContours)
         self._shallowLoadedContours = None
+        # the shallow contours have reserved their identifiers,
+        # hand them over to the contour and point objects
+        for contour in contours:
+            self._identifiers.discard(contour.get("identifier"))
+            for args, kwargs in contour["points"]:
+                self._identifiers.discard(kwargs.get("identifier"))
         dirty = self.dirty
         pointPen = self.getPointPen()
         self._drawShallowLoadedContours(pointPen, contours)
